@@ -83,3 +83,5 @@ Theorem c04_src_terrapin_rule : forall ca bs k dh rn d c n e0,
 Proof. exact src_terrapin_rule. Qed.
 Theorem c04_tie_extract_ok_terrapin_texts : extract_ok_terrapin_texts = true.
 Proof. exact tie_extract_ok_terrapin_texts. Qed.
+Theorem c04_tie_has_marker : forall ca k, has_marker ca k = src_has_marker ca (kl_kex k).
+Proof. exact tie_has_marker. Qed.
